@@ -175,9 +175,9 @@ def run(tier, seed):
     for n in names:
         three = n.startswith("S7")
         if tier == "quick":
-            jobs.append((n, 2, not three))
+            jobs.append((n, 1 if three else 2, True))
         else:
-            jobs.append((n, 3, True))
+            jobs.append((n, 2 if three else 3, True))
     outs = pool.pmap(_job, jobs, chunk=1)
     states = trans = val = 0
     per = []
